@@ -3,9 +3,10 @@
      0  the two packages are equal, the hypotheses of C11E_round_trip_end_to_end_partial hold, the package is normal and a
         fixed point of rt_pkg;  also: the design is refused by both, or lies outside the model (frag_ok2 false / model declines)
         and rt_pkg is the identity on the implementation's own package
-     1  the round trip is NOT the identity on the exported package: the driver measured to_proto(from_proto(P)) <> P, or rt_pkg
-        (tied to the implementation by the C11 streams) does not return the package
-     2  tie broken: to_c11 (model package) differs from the implementation's package, or exactly one of the two refuses the design
+     1  the round trip is NOT the identity on the exported package: the driver measured to_proto(from_proto(P)) <> P (as
+        messages or as deterministic bytes), or from_proto / the second to_proto raised
+     2  tie broken: to_c11 (model package) differs from the implementation's package, exactly one of the two refuses the design,
+        or the driver measured P' = P while rt_pkg is not the identity on the package
      3  harness: a generated design on which a hypothesis is false (wf_design / xinfo_ok / xinfo_c11_ok) although both accept it
      4  the model contradicts its theorem: hypotheses hold, the package is not normal  *)
 Require Import Hdl21.Base.PyInt Hdl21.Spec.PySlice Hdl21.Model.Slice Hdl21.Model.Resolve Hdl21.Base.Design
@@ -28,13 +29,13 @@ Definition chk_c11e (c : c11e_case) : Z :=
   let xi := e_xinfo c in
   match elab_export_model2 xi d, e_impl c with
   | Error _, None => 0
-  | Error _, Some q' => if negb (e_impl_rt c) then 1 else if frag_ok2 d && wf_ok d then 2 else if rt_fixed q' then 0 else 1
+  | Error _, Some q' => if negb (e_impl_rt c) then 1 else if frag_ok2 d && wf_ok d then 2 else if rt_fixed q' then 0 else 2
   | Ok _, None => if wf_ok d then 2 else 0
   | Ok p, Some q' =>
       let q := to_c11 p in
       if negb (e_impl_rt c) then 1 else
-      if negb (c11pkg_eqb q q') then (if rt_fixed q' then 2 else 1) else
-      if negb (rt_fixed q) then 1 else
+      if negb (c11pkg_eqb q q') then 2 else
+      if negb (rt_fixed q) then 2 else
       if negb (wf_ok d && frag_ok2 d && xinfo_ok xi d && xinfo_c11_ok xi) then 3 else
       if negb (c11_normal q) then 4 else 0
   end.
